@@ -6,12 +6,13 @@ export GOFLAGS=-mod=mod GOPROXY=off
 WT=/tmp/wt/confirm
 OUT=/verif/seeded
 LOG=/tmp/seedconfirm.log
-: > $LOG
+: >> $LOG
 cd /repo
 git worktree remove --force $WT 2>/dev/null
 git worktree add -q --detach $WT HEAD
 for d in /tmp/seedout/a*/C*/; do
   id=$(basename $d)
+  if [ -n "$ONLY" ] && ! echo " $ONLY " | grep -q " $id "; then continue; fi
   agent=$(basename $(dirname $d))
   demo=$(ls $d/zz_seed_*_test.go 2>/dev/null | head -1)
   [ -z "$demo" ] && { echo "$id: no demo" >> $LOG; continue; }
